@@ -13,7 +13,7 @@ correspondence: (a) programs with ONE undefined name or ONE ill-typed `+` after 
 judge:          coq/Diag/Spec.v `judge` (extracted) on EVERY diagnostic of every program: rendering did not crash;
                 the location is a range whose lines exist and whose columns lie within them; for the undefined
                 name the text sliced at the range is the name, for the type error the range lies within the
-                offending expression; on ASCII lines the marker row sits under the range
+                offending expression; the marker row sits under the range (counted in characters)
 """
 from lib.vplib import *
 
@@ -406,7 +406,7 @@ def run(ctx):
     for c in cases:
         c["pieces"] = [tuple(p) for p in c["pieces"]]
     ncorpus = len(cases)
-    for _ in range(ctx.scale(500, 12000)):
+    for _ in range(ctx.scale(500, 3000)):
         cases.append(gen_case(ctx.rng))
     ctx.log("%d programs" % len(cases))
     res = evaluate(m, cases)
